@@ -573,6 +573,49 @@ def check_optional_by_default(db, chk):
     chk.floor(R, "Option fields stored by default value with a decoder in reach", n, 8)
 
 
+ENCODER_HELPERS_OK = {
+    "utils::CachedFileSize::get": "reads the cached size (a plain getter)",
+}
+
+
+def check_encoders_store_the_value_as_is(db, chk):
+    """decode(encode(x)) = x needs the encoder to store x, not a tidied-up relative of x (coalesced runs, a re-sorted list, a
+    trimmed string): whatever an encoder calls among this workspace's own functions is a conversion into the stored form
+    (From / TryFrom / Into with a pb result, or any function returning a pb message), a clone, a default or a reviewed getter."""
+    R = "INV-encoder-direct"
+    chk.rule(R, "encoders (domain -> pb, and the sequence writers) call no workspace function that returns a non-pb value, other than "
+                "Clone / Default / From / Into and the reviewed getters")
+    enc = [f for f in conversions(db) if "pb::" in result_inner(norm(f.locals[0]["ty"])) and "pb::" not in norm(f.locals[1]["ty"])]
+    enc += [f for f in db.fns.values() if f.focus and f.path.endswith(("rowids::version::write_dataset_versions", "rowids::serde::write_row_ids"))]
+    chk.floor(R, "encoders examined", len(enc), 20)
+    seen = {}
+    for f in enc:
+        for g in f.family():
+            if not g.focus:
+                continue
+            for b, t in g.cfg.calls():
+                h = db.fns.get(t.get("rid") or t.get("id"))
+                if h is None or h.root().id == f.id:
+                    continue
+                tr = (h.r.get("impl_trait") or "")
+                if tr.endswith(("convert::From", "convert::TryFrom", "convert::Into", "clone::Clone", "default::Default", "string::ToString", "fmt::Display")):
+                    continue
+                try:
+                    rt = h.locals[0]["ty"]
+                except Exception:
+                    rt = "?"
+                if "pb::" in rt:
+                    continue
+                seen.setdefault((f.path, h.path), (g, t, rt))
+    for (fp, hp), (g, t, rt) in sorted(seen.items()):
+        chk.analysed(g)
+        chk.ob(R, "%s->%s" % (fp.split(" for ")[-1].split("::")[-2] if " for " in fp else fp.split("::")[-1], hp.split("::")[-1]), hp in ENCODER_HELPERS_OK,
+               "%s calls %s (returns %s): %s" % (fp, hp, rt[:60], ENCODER_HELPERS_OK.get(hp, "not a conversion into the stored form -- the value is "
+                                                                                        "rebuilt before it is stored, and the decoder cannot undo that")), g.loc(t["ln"]))
+    if not seen:
+        chk.ob(R, "none", True, "no encoder calls a workspace function outside the allowed kinds", None)
+
+
 def _stored_name(c, op):
     p = op_place(op)
     for _ in range(6):
@@ -612,5 +655,6 @@ def run(db, chk):
     check_enum_tables(db, chk)
     check_optional_by_emptiness(db, chk)
     check_optional_by_default(db, chk)
+    check_encoders_store_the_value_as_is(db, chk)
     chk.sample({"conversion": pairs[0] if pairs else None, "total_pairs": len(pairs)})
     chk.assume("prost encode/decode of a message is lossless for the fields it is given")
